@@ -2,13 +2,14 @@
 # Refactoring drill (DESIGN 12.4b): applies each semantics-preserving patch refactorings/R<k>/patch.diff to a scratch worktree of
 # /repo ($WT, default /tmp/wtR: create it with `git -C /repo worktree add --detach /tmp/wtR HEAD`) and runs all twenty quick
 # checks against it; every line of <out file> must say rc=0.
+# env: KS = refactoring numbers, CS = two-digit check numbers (default all twenty)
 # usage: tools/eval_refactors.sh <directory holding ./check (a copy of /verif)> <out file>
 SNAP=$1; OUT=$2; WT=${WT:-/tmp/wtR}
 : > $OUT
 for k in ${KS:-1 2 3 4 5 6 7 8 9 10 11 12 13 14 15 16}; do
   git -C $WT checkout -- psec; git -C $WT clean -fdq psec
   git -C $WT apply $(cd $(dirname $0)/.. && pwd)/refactorings/R$k/patch.diff || { echo "R$k apply failed" >> $OUT; continue; }
-  for i in 01 02 03 04 05 06 07 08 09 10 11 12 13 14 15 16 17 18 19 20; do
+  for i in ${CS:-01 02 03 04 05 06 07 08 09 10 11 12 13 14 15 16 17 18 19 20}; do
     out=$(cd $SNAP && PSEC_REPO=$WT VERIF_SEED=3 ./check C$i --tier quick 2>&1); rc=$?
     echo "R$k C$i rc=$rc :: $(echo "$out" | tail -1 | cut -c1-160)" >> $OUT
     if [ $rc -ne 0 ]; then echo "$out" | grep -E "VIOLATION|detail|INFRA" | head -6 | sed 's/^/      /' | cut -c1-400 >> $OUT; fi
